@@ -9,6 +9,9 @@ from .. import gen_p21, p21fam, ref_p21, run, probes
 AVOID_SCHEMA = probes.masked_schema_features('C01') | probes.masked_schema_features('C10')
 AVOID_POP = probes.masked_pop_features('C01') | probes.masked_pop_features('C10')
 HARN = ['lazymon.cc']
+# strings the eager reader accepts and that are hard for a text scanner: '#', '(', ';' and the ISO 8859 directive followed by an
+# apostrophe (`\\S\\'` is ONE escaped character for the library's string reader, not the end of the string)
+LAZY_STRS = gen_p21.STRS + ["q\\S\\'r", "see #1 \\S\\' and (#2); \\S\\' done", "\\S\\'"]
 import os
 VARIANTS = [v for v in (os.environ.get('VERIF_DBG_VARIANTS') or 'compact,spaced,cmt_between,lines').split(',') if v not in probes.masked_variants('C10')]
 
@@ -177,7 +180,7 @@ def main(chk):
     for li, lib in enumerate(libs):
         for pi in range(n_pops):
             rng = random.Random('c10/%d/%s/%d' % (chk.seed, lib.schema.name, pi))
-            pg = gen_p21.PopGen(lib.schema, rng, avoid=AVOID_POP)
+            pg = gen_p21.PopGen(lib.schema, rng, avoid=AVOID_POP, strs=LAZY_STRS)
             pop = pg.population(n_extra=rng.randint(1, 6), sparse=pi % 2 == 1, shuffle=pi % 3 == 2, with_complex=True)
             if 'unfillable' in pop.tags:
                 continue
